@@ -100,6 +100,7 @@ structure HDrv where
   now : Nat := 0
   names : List (String × Nat) := []     -- model tid name ↦ #k (first appearance)
   issued : List Bytes := []             -- tokens handed out in get_peers replies, in order (`I<n>`)
+  dropped : List Nat := []              -- streams whose receiver was dropped by the caller: their items are not observable
 
 /-- rename every `{name}` in the output to `#k` by first appearance (same pass on both sides) -/
 def renameTids (names : List (String × Nat)) (out : String) : List (String × Nat) × String :=
@@ -149,12 +150,16 @@ def parseInTid? (d : HDrv) (w : String) : Option InTid :=
   else none
 
 def finish (d : HDrv) (st : HState) (now : Nat) (res : String) (effs : List HEffect) : HDrv × String :=
+  -- what a search delivers to a stream nobody listens to any more cannot be seen from outside
+  let effs := effs.filter fun e => match e with
+    | .yield stream _ => !d.dropped.contains stream
+    | _ => true
   let out := res ++ " | " ++ effectsText effs ++ " " ++ timersText st.timer
   let (names, out') := renameTids d.names out
   let newTokens := effs.filterMap fun e => match e with
     | .send _ _ (.resp r) _ => r.token
     | _ => none
-  ({ st := some st, now := now, names := names, issued := d.issued ++ newTokens }, out')
+  ({ d with st := some st, now := now, names := names, issued := d.issued ++ newTokens }, out')
 
 /-- `token=I<n>`: the n-th token this node handed out (20 zero bytes if there is none yet) -/
 def resolveIssued (d : HDrv) (ws : List String) : List String :=
@@ -200,6 +205,14 @@ def handlerStep (d : HDrv) (line : String) : HDrv × String :=
       finish d { st with store := store } now (toString ok) []
     | none, _, _, _ => (d, "no-handler")
     | _, _, _, _ => (d, "bad-op")
+  | ["lookup", ih, ann, "drop", t] =>
+    -- a fire-and-forget search: the caller drops the stream at once
+    match d.st, bytesOfHex? ih, at? t with
+    | some st, some ih, some now =>
+      let (st', effs, stream) := st.startLookup ih (ann = "1") now
+      finish { d with dropped := stream :: d.dropped } st' now s!"stream={stream}" effs
+    | none, _, _ => (d, "no-handler")
+    | _, _, _ => (d, "bad-op")
   | ["lookup", ih, ann, t] =>
     match d.st, bytesOfHex? ih, at? t with
     | some st, some ih, some now =>
